@@ -28,9 +28,8 @@ extern "C" void vf_thread_0() {
     if (fresh) { ref[k >> 6 & 1] |= 1ull << (k & 63); cnt++; }
     if (i % 3 == 2) { auto r2 = s->emplace(k); vf_check(!r2.second && *r2.first == k, 1); }      // re-insert: not a new element
   }
-#ifdef VF_COPY
-  Set cp(*s); Set* s = &cp;        // every check below looks at a COPY of the (grown) set
-  vf_check(::s->size() == cnt, 2);
+#ifdef VF_COPY   /* not registered: the engine mis-executes the copy of a GROWN set on the unchanged tree (natively refuted), DESIGN 10.5 */
+  Set cp(*s); Set* s = &cp;        // every check below looks at a COPY of the set
 #endif
   vf_check(s->size() == cnt, 2);
   vf_check(s->empty() == (cnt == 0), 5);
